@@ -504,6 +504,12 @@ def build_event(ev: dict, order=None, shared=None):
         return {kk: dct[kk] for kk in keys}
 
     imp = _mi(reorder(ev["impact"]), ["region", "sector"], int_dtype=bool(ev.get("int_dtype")))
+    if ev.get("categorical"):
+        # what a groupby on categorical columns returns: index levels are categorical, categories in order of first appearance
+        df_ = imp.rename("v").reset_index()
+        for lev_ in ("region", "sector"):
+            df_[lev_] = pd.Categorical(df_[lev_], categories=list(df_[lev_].unique()))
+        imp = df_.groupby(["region", "sector"], observed=True)["v"].sum()
     if ev["type"] == "arbitrary":
         return bev.from_series(
             imp, event_type="arbitrary", occurrence=ev["occ"], duration=ev["dur"], name=ev.get("name"),
